@@ -15,6 +15,19 @@
 (* A cell that was never compiled before the save is not in the file: the   *)
 (* loaded model cannot know it (it would read as an empty cell), so after   *)
 (* Reload only saved cells are evaluated ("every saved cell", C03).         *)
+(*                                                                          *)
+(* The function table.  Engine's Def gives every formula its meaning; the   *)
+(* code gets it from the built-in library plus the plugin modules named     *)
+(* when the model is compiled (ExcelCompiler(.., plugins)) and when it is   *)
+(* loaded (from_file(.., plugins)).  Reload uses the SAME Def before, during*)
+(* and after the trip: Fill below computes formulas (the members of the     *)
+(* rebuilt ranges) while the file is being read, and every later Evaluate   *)
+(* computes with it.  So a model whose formulas call a plugin function is   *)
+(* an instance of this module like any other, provided the loader has the   *)
+(* plugin modules from its first computation on -- and to_file(pkl), which  *)
+(* builds the pickle by reading the text it has just written, has those of  *)
+(* the model being saved.  The driver binds this with workbooks whose       *)
+(* formulas are wrapped in the plugin function VID(x) = x (same Def).       *)
 (***************************************************************************)
 EXTENDS Engine
 
